@@ -386,6 +386,21 @@ func CheckFlow(p *ps.Program, sc *ps.Scenario, o *Obs) []Mismatch {
 		}
 	}
 	checkSubset()
+	if cancelActive {
+		// Nothing that depends on the cancelling task may start.
+		_, pdeps := deps(p)
+		for _, t := range p.Tasks {
+			if ev.anc[t.K][cancelK] && len(obsCall[t.K]) > 0 {
+				m.add("calls", "task %d started although it depends on task %d which cancelled the context", t.K, cancelK)
+			}
+			for _, d := range pdeps[t.K] {
+				if (d == cancelK || ev.anc[d][cancelK]) && len(obsPCall[t.K]) > 0 {
+					m.add("calls", "predicate %d started although it depends on task %d which cancelled the context", t.K, cancelK)
+					break
+				}
+			}
+		}
+	}
 	mustCallJob := func(k int) {
 		// every function of an (ideal) successful ancestor job
 		if ev.predCalled[k] && len(obsPCall[k]) == 0 {
